@@ -81,6 +81,7 @@ def build_program(case):
         sym = case["nested"]["sym"]
         L += ["function cb", '\targ "0"', '\tstore "x"', '\tload "x"',
               "\tcall_lib %s %s" % (hrb_quote("./lib/libprobe_a.so"), sym), "\tret", "end"]
+    pre = "progs/" if case.get("start") == "parent" else ""
     depth = case.get("depth", 0)
     # the calls run `depth` frames below the module: a chain of functions d1 .. d<depth>, the last one calling `body`
     L.append("function body" if depth else "function __module__")
@@ -141,7 +142,7 @@ def build_program(case):
         L += ['\tmake_vector "%d"' % len(n["list"]), '\tstore_fast "#0"']
         for v in n["list"]:
             L += ['\tmake_int "%d"' % v, '\tvec_op "+#0"']
-        L += ['\tdelete_name_reference_scoped "#0"', '\tstore "xs"', '\tmake_function "main.mmm#cb"', '\tstore "f"',
+        L += ['\tdelete_name_reference_scoped "#0"', '\tstore "xs"', '\tmake_function "%smain.mmm#cb"' % pre, '\tstore "f"',
               '\tload "xs"', '\tstore_fast "#1"', '\tload_fast "#1"', '\tlookup "%s"' % n["via"], '\tstore_fast "#2"',
               '\tload "f"', '\tstore_fast "#3"', '\tload_fast "#3"', '\tld_self "#1"', '\tload_fast "#2"', "\tcall",
               '\tstore "ys"', '\tload "ys"', '\tprintn "*"', "\tvoid"]
@@ -156,11 +157,11 @@ def build_program(case):
         L += ["\tvoid", "\tret", "end"]
         for k in range(depth, 0, -1):
             callee = "body" if k == depth else "d%d" % (k + 1)
-            L += ["function d%d" % k, '\tmake_function "main.mmm#%s"' % callee, '\tstore_fast "#1"', '\tload_fast "#1"', "\tcall", "\tvoid",
+            L += ["function d%d" % k, '\tmake_function "%smain.mmm#%s"' % (pre, callee), '\tstore_fast "#1"', '\tload_fast "#1"', "\tcall", "\tvoid",
                   '\tmake_str "back %d"' % k, '\tprintn "*"', "\tvoid", "\tvoid", "\tret", "end"]
             if not fail:
                 exp.append("back %d" % k)
-        L += ["function __module__", '\tmake_function "main.mmm#d1"', '\tstore_fast "#1"', '\tload_fast "#1"', "\tcall", "\tvoid"]
+        L += ["function __module__", '\tmake_function "%smain.mmm#d1"' % pre, '\tstore_fast "#1"', '\tload_fast "#1"', "\tcall", "\tvoid"]
     L += ["\tret_mod" if case.get("ret_mod") else "\tret", "end"]
     return "\n".join(L) + "\n", exp, fail
 
@@ -249,6 +250,12 @@ def gen_cases(tier, seed):
         case = {"prop": PROP, "id": "h%d" % n, "batch": "histories", "calls": calls, "plan": mk_plan(rng, rng.chance(1, 2)),
                 "gc": "%d:%d" % (rng.below(1 << 20), rng.choice([10000, 100000, 1000000])) if rng.chance(1, 2) else None,
                 "ret_mod": rng.chance(1, 2)}
+        if rng.chance(1, 4):
+            # the bytecode file lives in a sub-directory and the command is started one level above it: library names
+            # are still relative to the directory the command was started in (look-alikes sit next to the file)
+            case["start"] = "parent"
+        if rng.chance(1, 6):
+            case["vars"] = {"RUST_BACKTRACE": "1"}
         if rng.chance(1, 3):
             # how many frames lie between the module and the calls
             case["depth"] = rng.choice([1, 2, 5, 11, 12, 13, 14, 20, 23, 24, 25, 31, 40])
@@ -263,8 +270,16 @@ def gen_cases(tier, seed):
 
 def run_case(case):
     text, exp, fail = build_program(case)
-    world = core.fresh_world({"main.transpiled.mmm": text})
+    pre = "progs/" if case.get("start") == "parent" else ""
+    world = core.fresh_world({pre + "main.transpiled.mmm": text})
     os.mkdir(os.path.join(world, "lib"))
+    if pre:
+        # decoys next to the bytecode file: the other probe under the first library's name, and a file where the missing
+        # library would be
+        os.mkdir(os.path.join(world, "progs", "lib"))
+        os.symlink(PROBE_B, os.path.join(world, "progs", "lib", "libprobe_a.so"))
+        os.symlink(PROBE_A, os.path.join(world, "progs", "lib", "libprobe_b.so"))
+        os.symlink(PROBE_A, os.path.join(world, "progs", "lib", "nonexistent_probe.so"))
     os.symlink(PROBE_A, os.path.join(world, "lib", "libprobe_a.so"))
     os.symlink(PROBE_B, os.path.join(world, "lib", "libprobe_b.so"))
     os.symlink(PROBE_B, os.path.join(world, "lib", "plug\\libprobe.so"))
@@ -275,7 +290,7 @@ def run_case(case):
     os.mkdir(os.path.join(world, "search"))
     os.symlink(PROBE_A, os.path.join(world, "search", "libprobe_bare.so"))
     plan = case["plan"]
-    t = core.run_cmd(world, ["transpile", "main.transpiled.mmm"], plan={"seed": plan["seed"], "rules": []})
+    t = core.run_cmd(world, ["transpile", pre + "main.transpiled.mmm"], plan={"seed": plan["seed"], "rules": []})
     procs = [t]
     st = None
 
@@ -292,6 +307,10 @@ def run_case(case):
             pr["history_ends_in_fault"] = 1
         if case.get("nested"):
             pr["call_lib_inside_list_callback"] = 1
+        if case.get("start") == "parent":
+            pr["started_outside_the_bytecode_directory"] = 1
+        if case.get("vars"):
+            pr["environment_variable_RUST_BACKTRACE"] = 1
         if case.get("depth", 0) >= 13 and fail:
             pr["fault_below_13_or_more_frames"] = 1
         if any(c["lib"] == "lazy" for c in case["calls"]):
@@ -312,8 +331,9 @@ def run_case(case):
 
     if t["rc"] != 0:
         return failr("transpile-failed", "transpile rejected the hand-written bytecode: %s" % core.text(t["err"])[-300:], t)
-    e = core.run_cmd(world, ["execute", "main.mmm"], plan=plan, gc=case.get("gc"),
-                     extra_env={"LD_LIBRARY_PATH": os.path.join(world, "search")})
+    xenv = {"LD_LIBRARY_PATH": os.path.join(world, "search")}
+    xenv.update(case.get("vars") or {})
+    e = core.run_cmd(world, ["execute", pre + "main.mmm"], plan=plan, gc=case.get("gc"), extra_env=xenv)
     procs.append(e)
     out = core.text(e["out"])
     lines = out.split("\n")
@@ -369,6 +389,11 @@ def shrink(case):
         c = copy.deepcopy(case)
         c["gc"] = None
         yield c
+    for key in ("start", "vars"):
+        if case.get(key):
+            c = copy.deepcopy(case)
+            c[key] = None
+            yield c
     if case.get("depth"):
         for d in (0, case["depth"] // 2, case["depth"] - 1):
             if d < case["depth"]:
